@@ -6,7 +6,7 @@ import multiprocessing as mp
 
 from core import Driver, cps, uncps
 
-ALPHABET = "a01xbe.+'\"\\\n \t/*?=<:#@({"
+ALPHABET = "a01xbe.+'\"\\\n \t/*?=<:#@({\r"
 _d = re.compile(r"\d")
 _w = re.compile(r"\w")
 
@@ -131,11 +131,12 @@ LEXEMES = KEYWORDISH + [
     ">>=", "+=", "-=", "++", "--", "->", ".", "...", ",", ";", ":", "?", "#", "(", ")", "[", "]", "{", "}",
     "<:", ":>", "<%", "%>", "%:", "??(", "??)", "??<", "??>", "??=", "??!", "??'", "??-", "??/", "\\\n", "??/\n",
     "// c", "// c\n", "/* c */", "/*\n\tc\n*/", "/* a\\\nb */", "\"a\\\nb\"", "@", "$", "`", "\\", "é", "٣", "'", "\"", "''", "'ab'",
+    "\f", "\v", "\r", "\r\n", "\x1c", "\x85", "\xa0", "\u2028", "\u3000", "\ufeff", "\x00", "\u200b", "²", "Ⅷ", "ª", "\u0301",
     "1e", "1e+", "1.2.3", "089", "0b12", "1uu", "0x1e+3", "0xx1", "1.0q", "0x", ".", "..", "'\\q'", "\"\\x\"", "'\\777'",
 ]
 
 
-INSIDE = ["a", "b", "0", " ", " ", "\t", "\t", "\\\n", "??/\n", "??<", "<:", "%>", "\\n", "\\\\", "\\\"", "\\'", "\\x41",
+INSIDE = ["\r", "\f", "\xa0", "a", "b", "0", " ", " ", "\t", "\t", "\\\n", "??/\n", "??<", "<:", "%>", "\\n", "\\\\", "\\\"", "\\'", "\\x41",
           "\\0", "\\q", "\\\t", "*", "/", "?", "\n", ";", "{", "\"", "'", "é"]
 
 
